@@ -70,7 +70,8 @@ CHECKS = {
         "composed with play): for every event of play k and every installed component listening to its emitted/done callback the "
         "invocation trace of play k+1 contains exactly one invocation of that component's mapped reducer with the event's payload, "
         "before resp. after the invocations of the played action; re-entrant addon dispatch is counted apart; nothing of play k is "
-        "offered in play k+2 (C05_listeners_offered_once, C05_one_invocation_per_listener, C05_not_offered_later).",
+        "offered in play k+2 (C05_listeners_offered_once, C05_one_invocation_per_listener, C05_not_offered_later). play() and _get_event_callbacks are regenerated from simulate/base.py on every run (tools/tr_play.py); Props/C05_play_src.v "
+        "proves the generated play equal to the model's and restates relay-exactly-once / never-replayed for it.",
    note="Trusted: Coq kernel; restore∘save=id; the dispatch model is tied to simulate/base.py and component/base.py by the H-dispatch "
         "correspondence (mapping lookup, callbacks, whole-play invocation traces of real engines replayed in Coq) and by generated "
         "obligations on the components extracted from real engines (distinct names, non-empty keys); correspondence sampled over jobs/plans.",
